@@ -34,9 +34,17 @@ func VH_C01_AccountRecord_sym() {
 
 func VH_C01_AccountRecordDrain_sym() {
 	a := &Account{Login: string(vBytesEach("login", 3)), Name: string(vBytesEach("name", 3)), Password: "H:"}
+	hasPassword := vBool("account_has_a_password")
+	if hasPassword {
+		a.Password = "H:pw"
+	}
 	copy(a.Access[:], vBytesN("access", 8))
 	var ref []byte
-	ref = append(ref, 0, 3)
+	if hasPassword {
+		ref = append(ref, 0, 4)
+	} else {
+		ref = append(ref, 0, 3)
+	}
 	ref = append(ref, refField(0, 0x66, []byte(a.Name))...)
 	obf := make([]byte, len(a.Login))
 	for i := 0; i < 8; i++ {
@@ -46,6 +54,9 @@ func VH_C01_AccountRecordDrain_sym() {
 	}
 	ref = append(ref, refField(0, 0x69, obf)...)
 	ref = append(ref, refField(0, 0x6e, a.Access[:])...)
+	if hasPassword {
+		ref = append(ref, refField(0, 0x6a, []byte("x"))...) // the password marker
+	}
 	c01DrainStep(vEnc{a.Read, func(o int) { a.readOffset = o }, func() int { return a.readOffset }}, ref, 2000)
 }
 
